@@ -102,6 +102,72 @@ def fillFront (a : Int) : Nat → List Int → List Int
 def checksum (xs : List Int) : Int :=
   (xs.foldl (fun (acc : Int × Int) v => ((acc.1 + acc.2 * v) % 1000000007, acc.2 + 1)) (0, 1)).1
 
+/-! ## kept handles
+
+A caller may keep the node handle `Find` gave it and use it later.  The specification follows the *position* of the
+designated element through the edits in between.  Both list types embed their first node by value and replace it by
+copying (`Unshift`, `Shift`, `Delete`/`InsertBefore` of the first element), and `SList.Delete` copies the successor
+over the deleted node: a handle whose node is copied from or overwritten no longer designates an element of the
+sequence — the property says nothing about it (`moveIdx = none`; the monitor then gives no verdict). -/
+
+/-- what an edit does to positions: a new element at `p`, the element at `p` removed, or nothing -/
+inductive Edit where
+  | ins (p : Nat)
+  | del (p : Nat)
+  | none
+deriving Repr, DecidableEq
+
+/-- the edit a (successful) operation on the sequence `xs` performs -/
+def editOf (xs : List Int) : Op → Edit
+  | .unshift _ => .ins 0
+  | .shift => if xs.length > 1 then .del 0 else .none
+  | .pop => if xs.length > 1 then .del (xs.length - 1) else .none
+  | .insertAfter x _ => match xs.idxOf? x with
+    | some p => .ins (p + 1)
+    | none => .none
+  | .insertBefore x _ => match xs.idxOf? x with
+    | some p => .ins p
+    | none => .none
+  | .delete x => match xs.idxOf? x with
+    | some p => if xs.length > 1 then .del p else .none
+    | none => .none
+  | _ => .none
+
+/-- where the element designated by a kept handle (position `i ≥ 1`) is after the edit -/
+def moveIdx (dbl : Bool) (e : Edit) (i : Nat) : Option Nat :=
+  match e with
+  | .none => some i
+  | .ins p => some (if p ≤ i then i + 1 else i)
+  | .del p =>
+    if i = p then none
+    else if i < p then some i
+    else if p = 0 ∧ i = 1 then none              -- the second node is copied into the embedded first node
+    else if !dbl ∧ i = p + 1 then none           -- `SList.Delete` copies the successor over the deleted node
+    else some (i - 1)
+
+/-- operations through a kept handle that designates position `i` -/
+inductive HOp where
+  | deleteH (i : Nat)
+  | insertAfterH (i : Nat) (v : Int)
+  | insertBeforeH (i : Nat) (v : Int)
+deriving Repr, DecidableEq
+
+/-- "Delete removes exactly that node … InsertAfter/InsertBefore place the new value next to the node" -/
+def AllowedH (xs : List Int) (op : HOp) (ans : Ans) (xs' : List Int) : Prop :=
+  match op with
+  | .deleteH i => if xs.length > 1 then ans = .ok ∧ xs' = xs.eraseIdx i else ans = .err ∧ xs' = xs
+  | .insertAfterH i v => ans = .ok ∧ xs' = (xs.take (i + 1)) ++ v :: xs.drop (i + 1)
+  | .insertBeforeH i v => ans = .ok ∧ xs' = (xs.take i) ++ v :: xs.drop i
+
+instance (xs : List Int) (op : HOp) (ans : Ans) (xs' : List Int) : Decidable (AllowedH xs op ans xs') := by
+  unfold AllowedH
+  cases op <;> simp only <;> infer_instance
+
+def editOfH (xs : List Int) : HOp → Edit
+  | .deleteH i => if xs.length > 1 then .del i else .none
+  | .insertAfterH i _ => .ins (i + 1)
+  | .insertBeforeH i _ => .ins i
+
 /-- A whole observed history `obs` (answer, sequence observed afterwards — one entry per operation)
 is admitted from the sequence `xs`. -/
 def Holds (sv : Bool) : List Int → List Op → List (Ans × List Int) → Prop
